@@ -81,6 +81,10 @@ def handleGen (op : String) (j : Json) : Except String Json := do
     match pair_species_func Atsim.strip (← getStr j "k") with
     | .ok p => return arrJ [Json.str p.1, Json.str p.2]
     | .error e => return cfgErrJ e
+  | "fs_species" =>
+    match fs_species_func Atsim.strip (← getStr j "k") with
+    | .ok p => return arrJ [Json.str p.1, Json.str p.2]
+    | .error e => return cfgErrJ e
   | "dup_pairs" =>
     match dup_pairs Atsim.strip (← parseCfgRec j) with
     | .ok _ => return Json.str "ok"
